@@ -318,6 +318,7 @@ func gsub(t *rt.Thread, c *rt.GoCont) (rt.Cont, error) {
 		sb         strings.Builder // Build the result string into this
 		matchCount int64
 		allowEmpty = true
+		replaced   bool // true once something has been written to sb
 	)
 	// We require memory for the string we build as we go along.  In order to
 	// save allocations in case there are no substitutions, we do not start
@@ -344,6 +345,7 @@ func gsub(t *rt.Thread, c *rt.GoCont) (rt.Cont, error) {
 				_, _ = sb.WriteString(s[sj:start])
 				_, _ = sb.WriteString(sub)
 				sj = end
+				replaced = true
 			}
 		}
 		allowEmpty = start >= end
@@ -355,7 +357,7 @@ func gsub(t *rt.Thread, c *rt.GoCont) (rt.Cont, error) {
 	}
 	var res rt.Value
 	switch {
-	case sb.Len() == 0:
+	case !replaced:
 		// We return the input string to save an allocation.
 		res = c.Arg(0)
 	case sj < len(s):
